@@ -61,6 +61,13 @@ def _fake_virtual_memory():
     return collections.namedtuple('svmem', 'total available')(Mem.total, Mem.available)
 
 
+class TupleFn:
+    """x -> (x, [marker]): a shallowly immutable example with mutable content"""
+
+    def __call__(self, x):
+        return (x, ['m'])
+
+
 class FreshLogFn(W.FreshFn):
     def __call__(self, x):
         ctx, ids = W._enter(self.stage, x)
@@ -115,7 +122,8 @@ def gen(rng, tier, index):
     n = rng.randrange(1, 8)
     src = rng.choice(['list', 'dict'])
     base = {'n': n, 'source': src, 'fresh': rng.random() < 0.7,
-            'keep': rng.choice(['5 GB', '50%', '2GiB', None])}
+            'keep': rng.choice(['5 GB', '50%', '2GiB', None]),
+            'tuple': rng.random() < 0.2}
     cases = []
     for j in range(3):
         flap = rng.random() < 0.2
@@ -143,8 +151,15 @@ def threshold(keep):
 def _mutate(v):
     """deep in-place damage of a returned example"""
     try:
+        if isinstance(v, tuple) and len(v) == 2 and isinstance(v[0], str):
+            v = v[1]            # (key, example) pair from items()
         if isinstance(v, tuple):
-            v = v[1]
+            for part in v:
+                if isinstance(part, list):
+                    part.append('MUT')
+                elif isinstance(part, dict):
+                    _mutate(part)
+            return
         if isinstance(v, dict):
             inner = v.get('x')
             if isinstance(inner, dict):
@@ -183,10 +198,13 @@ class Model:
                 i = e[4][0]
                 self.last[i] = {'f': 'fresh', 'x': {'f': 'u0', 'x': {'src': i}},
                                 'nonce': e[5]}
+                if self.case.get('tuple'):
+                    self.last[i] = ['__tuple__', self.last[i], ['m']]
         self.pos = len(log)
 
     def expected_det(self, i):
-        return {'f': 'det', 'x': {'f': 'u0', 'x': {'src': i}}}
+        v = {'f': 'det', 'x': {'f': 'u0', 'x': {'src': i}}}
+        return ['__tuple__', v, ['m']] if self.case.get('tuple') else v
 
     def bad(self, cls, sig, msg):
         if not self.violations:
@@ -424,8 +442,11 @@ def _upstream(case):
         src = lazy_dataset.new({'k%d' % i: {'src': i} for i in range(n)})
     else:
         src = lazy_dataset.new([{'src': i} for i in range(n)])
-    return src.map(W.MapFn('u0')).map(
+    up = src.map(W.MapFn('u0')).map(
         FreshLogFn('fresh') if case['fresh'] else W.MapFn('det'))
+    if case.get('tuple'):
+        up = up.map(TupleFn())
+    return up
 
 
 def _prefetch_iteration(case, ds, ctx, m, w, b, seed, flip, thr, fired, trace):
